@@ -265,7 +265,7 @@ def replay_relabel(gridname, op):
     return {"violates": r["status"] == "violated", "detail": r["detail"]}
 
 
-def ob_swapped_normals(op):
+def ob_swapped_normals(op, kind_override=None):
     """bounded: swapped_normals=[2] == physically reversing the orientation of the elements of domain 2 (DP0 x DP0 spaces, P1 x P1 for
     the hypersingular operators; element, vertex and DOF numbering unchanged, only the local vertex order flips): equal up to
     singular-quadrature error."""
@@ -280,6 +280,8 @@ def ob_swapped_normals(op):
             el[[1, 2], j] = el[[2, 1], j]
     g2 = SG.make_grid(g.vertices, el, g.domain_indices)
     kind, deg = (("P", 1) if op.endswith("hyp") else ("DP", 0))
+    if kind_override:
+        kind, deg = kind_override
     a0 = api.function_space(g, kind, deg, swapped_normals=[2])
     b0 = api.function_space(g2, kind, deg)
     A = Z.dense(Z.boundary_operator(op, a0, a0, a0, par))
@@ -290,12 +292,12 @@ def ob_swapped_normals(op):
     differs = Z.relerr(C, A)
     if err > 1e-4:
         return violated("%s: swapped-normals flag vs reversed orientation differ by %.2e" % (op, err), witness={"op": op},
-                        replay={"callable": "checks.c03:replay_swapped", "kwargs": {"op": op}, "confirmed": True}, signature="swapped/%s" % op)
+                        replay={"callable": "checks.c03:replay_swapped", "kwargs": {"op": op, "kind_override": kind_override}, "confirmed": True}, signature="swapped/%s" % op)
     return held("flag vs flipped orientation %.1e (flag changes the matrix by %.1e)" % (err, differs))
 
 
-def replay_swapped(op):
-    r = ob_swapped_normals(op)
+def replay_swapped(op, kind_override=None):
+    r = ob_swapped_normals(op, tuple(kind_override) if kind_override else None)
     return {"violates": r["status"] == "violated", "detail": r["detail"]}
 
 
@@ -358,6 +360,9 @@ def main():
         run.add("matrix.relabel.%s[octa]" % op, "bounded", ob_matrix_relabel, "octa", op)
     for op in ("laplace_single", "laplace_double", "laplace_adjoint", "helmholtz_double", "laplace_hyp", "helmholtz_hyp", "modified_hyp"):
         run.add("matrix.swapped-normals.%s" % op, "bounded", ob_swapped_normals, op)
+    for op in ("laplace_double", "laplace_adjoint", "helmholtz_double"):
+        # P1: the colour-sorted element order of the launches is not the identity
+        run.add("matrix.swapped-normals.%s[P1]" % op, "bounded", ob_swapped_normals, op, ("P", 1))
     sw = ("DP", 1, {"swapped_normals": [2]})
     for at, pc in (("default_scalar", "-"), ("laplace_hypersingular", "-"), ("helmholtz_hypersingular", "ki!=0"), ("modified_helmholtz_hypersingular", "w")):
         run.add("pipeline.%s[tetra, swapped normals on one domain of the test space only]" % at, "post", PL.ob_pipeline, "tetra", sw, dp1, [1, 2, 2, 1], None, at, pc)
